@@ -103,7 +103,7 @@ Theorem params_agree c : gwf c = true -> gguards c = true -> impl_params c = spe
 Proof.
   intros Hwf Hg. unfold impl_params, spec_params. apply map_ext_in. intros e He.
   unfold gguards in Hg. repeat (apply andb_prop in Hg; destruct Hg as [Hg ?]).
-  rename H into Hcr, H0 into Hown, H1 into Hrate, H2 into Habove, H3 into Hker. rename Hg into Hall.
+  rename H into Hcr, H0 into Hrate, H1 into Habove, H2 into Hker. rename Hg into Hall.
   unfold g_all_spread in Hall. rewrite forallb_forall in Hall. specialize (Hall e He).
   unfold g_no_undelayed_kernel in Hker. rewrite forallb_forall in Hker. specialize (Hker e He).
   unfold g_above_step in Habove. rewrite forallb_forall in Habove. specialize (Habove e He).
@@ -129,11 +129,8 @@ Qed.
 Theorem gimpl_refines_spec c n : gwf c = true -> gguards c = true -> gimpl_run c n = Ok (gspec_run c n).
 Proof.
   intros Hwf Hg. unfold gimpl_run, gspec_run. rewrite (params_agree c Hwf Hg).
-  unfold gguards in Hg. apply andb_prop in Hg. destruct Hg as [Hg Hc]. apply andb_prop in Hg. destruct Hg as [_ Hown].
-  assert (Hs : impl_srcs c = spec_srcs c).
-  { unfold impl_srcs, spec_srcs. apply map_ext_in. intros e He. unfold g_own_source in Hown.
-    rewrite forallb_forall in Hown. apply Nat.eqb_eq, Hown, He. }
-  rewrite Hs. unfold g_no_scalar_shared_chain in Hc.
+  unfold gguards in Hg. apply andb_prop in Hg. destruct Hg as [_ Hc]. unfold g_no_scalar_shared_chain in Hc.
+  change (impl_srcs c) with (spec_srcs c).
   destruct (gcrashes c); [discriminate|reflexivity].
 Qed.
 
